@@ -212,6 +212,14 @@ NEEDS = {
     "C19-r5-2": "a task scheduled but not yet run when the executor cancels it: tasks waking one another during drop, or a failed simulation with queued tasks (token reference never released: task allocation leaked)",
     "C20-r5-1": "a pull between two equal-key inserts, the queue having been longer when the older one went in (epoch taken from heap.len())",
     "C20-r5-2": "IndexedPriorityQueue::peek after a slab slot freed by pull/extract was reused (slab indexed with key.epoch instead of slab_idx)",
+    "C04-r6-1": "multi-threaded: > ~257 tasks made runnable from one worker without a concurrent steal (local queue drains QUEUE_SIZE tasks into a bucket that keeps 128: the rest are dropped, i.e. cancelled)",
+    "C04-r6-2": "Output with >= 2 receivers, an earlier broadcast, and a full mailbox on the last-connected receiver (last slot not cleared)",
+    "C13-r6-1": "a cancel landing during the very poll that returns Ready, another handle (Promise) still alive, an output with drop glue (the Ready-path update tests the state captured on entry)",
+    "C13-r6-2": "Closed task whose last handle is a Waker consumed by value (output dropped when POLLING == 0 instead of CLOSED == 0)",
+    "C14-r6-1": ">= 2 repliers accept and the query future is re-polled while idle an odd number of times (empty test on the whole head word erases the notification request)",
+    "C14-r6-2": "a first query accepted by 3 repliers cancelled after one poll, a second accepted by 2, the late reply of the first arriving meanwhile (TaskSet resized to the number of connections)",
+    "C15-r6-1": "a reader whose two loads straddle the writer's secs/nanos stores and which re-checks before the writer's final store (final comparison masks the low bit)",
+    "C15-r6-2": "weak memory model only (loom): reader-side fence Release instead of Acquire",
     "C19-2": "output with >= 2 connections, a full target mailbox, simulation dropped while the broadcast is pending (ManuallyDrop not released)",
 }
 
@@ -230,7 +238,7 @@ def _needs_from_notes(d):
 def main():
     os.makedirs(DST, exist_ok=True)
     n = 0
-    for cj in sorted(glob.glob(os.path.join(SRC, "C*", "*", "confirm.json")) + glob.glob(os.path.join("/tmp/mutout2", "C*", "*", "confirm.json")) + glob.glob(os.path.join("/tmp/mutout3", "C*", "*", "confirm.json")) + glob.glob(os.path.join("/tmp/mutout4", "C*", "*", "confirm.json")) + glob.glob(os.path.join("/tmp/mutout5", "C*", "*", "confirm.json"))):
+    for cj in sorted(glob.glob(os.path.join(SRC, "C*", "*", "confirm.json")) + glob.glob(os.path.join("/tmp/mutout2", "C*", "*", "confirm.json")) + glob.glob(os.path.join("/tmp/mutout3", "C*", "*", "confirm.json")) + glob.glob(os.path.join("/tmp/mutout4", "C*", "*", "confirm.json")) + glob.glob(os.path.join("/tmp/mutout5", "C*", "*", "confirm.json")) + glob.glob(os.path.join("/tmp/mutout6", "C*", "*", "confirm.json"))):
         d = os.path.dirname(cj)
         c = json.load(open(cj))
         sid = c["id"]
@@ -253,7 +261,7 @@ def main():
             "breaks_property": sid.split("-")[0],
             "files_changed": files,
             "needs_to_manifest": NEEDS.get(sid, old.get("needs_to_manifest") or _needs_from_notes(d)),
-            "round": 5 if "-r5-" in sid else 4 if "-r4-" in sid else (3 if "-r3-" in sid else (2 if "-r2-" in sid else 1)),
+            "round": 6 if "-r6-" in sid else 5 if "-r5-" in sid else 4 if "-r4-" in sid else (3 if "-r3-" in sid else (2 if "-r2-" in sid else 1)),
             "demonstration": demos,
             "confirmed_by_me": {
                 "how": "tools/confirm_seed.sh on a scratch git worktree of /repo at %s (removed afterwards): git apply patch.diff; cargo build --workspace; "
